@@ -9,8 +9,8 @@ res="id=$ID base=$BASE"
 if git apply $PATCH 2>/dev/null; then res="$res apply=ok"; else res="$res apply=FAIL"; echo "$res"; cd /; git -C /repo worktree remove --force $WT; exit 1; fi
 if (cmake -G Ninja -B _build . >/dev/null 2>&1 && cmake --build _build >/dev/null 2>&1); then res="$res build=ok"; else res="$res build=FAIL"; fi
 if (timeout 120 ./_build/w2c2/w2c2_test >/dev/null 2>&1 && timeout 120 ./_build/wasi/w2c2wasi_test > /dev/null 2>&1); then res="$res tests=pass"; else res="$res tests=FAIL"; fi
-timeout 900 bash /tmp/wt/out-$ID/demo/run.sh $WT >/tmp/wt/vs-$ID-patched.log 2>&1; res="$res demo_patched_exit=$?"
+timeout 900 bash ${OUTBASE:-/tmp/wt}/out-$ID/demo/run.sh $WT >/tmp/wt/vs2-$ID-patched.log 2>&1; res="$res demo_patched_exit=$?"
 git apply -R $PATCH
-timeout 900 bash /tmp/wt/out-$ID/demo/run.sh $WT >/tmp/wt/vs-$ID-clean.log 2>&1; res="$res demo_clean_exit=$?"
+timeout 900 bash ${OUTBASE:-/tmp/wt}/out-$ID/demo/run.sh $WT >/tmp/wt/vs2-$ID-clean.log 2>&1; res="$res demo_clean_exit=$?"
 cd /; git -C /repo worktree remove --force $WT
 echo "$res"
